@@ -13,6 +13,9 @@ seeds={}
 for d in sorted(glob.glob(f'{V}/seeded/*/')):
     sid=os.path.basename(d.rstrip('/')); p=sid.split('-')[0]
     r=json.load(open(d+'result.json')) if os.path.exists(d+'result.json') else None
+    meta=json.load(open(d+'meta.json')) if os.path.exists(d+'meta.json') else {}
+    if meta.get('stale'):
+        r={'applies':False,'stale':meta['stale']}
     seeds.setdefault(p,[]).append((sid,r))
 for i in sorted(props):
     ev=None
@@ -42,9 +45,10 @@ for p in sorted(seeds):
             t=[x for x in t if x.strip() and not x.startswith('#')]
             notes=(t[0] if t else '')[:160].replace('|','\\|')
         if not r: res='not run'; how=''
+        elif r.get('stale'): res='stale'; how=r['stale'][:150].replace('|','\\|')
         elif not r.get('applies'): res='n/a'; how='patch no longer applies (the code it changed was repaired since)'
         elif r.get('caught'):
-            res=p; v=r['violations'][0] if r['violations'] else ''
+            res=r.get('checked_property') or p; v=r['violations'][0] if r['violations'] else ''
             m=re.search(r'replay=\S*/([^/ ]+)\.json',v); how=(m.group(1) if m else '')[:90]
         else: res='MISSED'; how=''
         print(f"| {sid} | {notes} | {res} | {how} |")
